@@ -2,9 +2,9 @@
    Only statements; proofs live in Proofs/PsetMerge.v.  The per-field merge policy tables (Gen.Tables.pset_*_merge), the field lists
    (pset_*_fields) and the shape of the xpub reconciliation (xpub_take_arm_guarded) are re-read from the Rust source on every run;
    `cur_tables` packs them.  Theorems are stated for every table where possible and instantiated with the current one. *)
-From Coq Require Import List NArith Bool.
+From Coq Require Import List NArith Bool Permutation.
 From Coq.Strings Require Import Byte.
-From EV Require Import Base.Bytes Gen.Tables Model.PsetMap Model.PsetTx Model.PsetMerge Proofs.PsetMap Proofs.PsetMerge Proofs.PsetTx.
+From EV Require Import Base.Bytes Gen.Tables Model.PsetMap Model.PsetTx Model.PsetMerge Proofs.PsetMap Proofs.PsetMerge Proofs.PsetTx Proofs.PsetFamily.
 Import ListNotations.
 
 (* ------------------------------------------------------------------ the unique-id gate *)
@@ -109,15 +109,51 @@ Proof.
     exfalso. apply (NC cl). apply In_policy_of; [vm_compute; reflexivity|exact I].
 Qed.
 
-(* FULL STATEMENT, not yet proved (kept visible): any order and grouping of a family.
-   Theorem C14_family : forall id id_eqb uid (t t' : mtree) x,
-     Permutation (leaves t) (leaves t') ->
-     (forall p, In p (leaves t) -> uid p = Val x) -> id_eqb x x = true ->
-     (forall p q, In p (leaves t) -> In q (leaves t) -> pset_pair_ok cur_tables p q) ->
-     (forall p q, In p (leaves t) -> In q (leaves t) -> required lock times of p and q agree at every input) ->
-     exists c c', eval_tree id_eqb uid t = Val c /\ eval_tree id_eqb uid t' = Val c' /\ pset_equiv c c'.
-   Proved so far: the two-member case in both orders (C14_commutes).  Larger families are covered only by the correspondence run
-   (every permutation and grouping of 2..4 descendants is merged on the implementation and on the model and all results compared). *)
+(* ------------------------------------------------------------------ any order and any grouping of a family *)
+(* A family (`pfam`): k >= 1 PSETs of the same shape such that every two members (and every member with itself) satisfy the hypotheses of
+   C14_commutes (`pset_pair_ok`: key-sorted, disjoint-or-identical contents as for descendants of a common ancestor — C14_descendants_compat —,
+   no difference in an unmerged field [class F3-global-fallback_locktime-dropped], no clearing statement firing [class
+   F3-witness-utxo-clears-non-witness-utxo]) and agree on the transaction-identifying fields (`pset_agree`: in particular nobody changed a required
+   lock time [class C14-locktime-max-changes-unique-id]), all with unique id x.
+   Then EVERY binary merge tree over EVERY permutation of the family succeeds, and any two of them give the same PSET.
+   Proof (Proofs/PsetFamily.v): the result of a tree is characterised as the join of its leaves; merging joins gives the join of the
+   concatenation; the join of a permuted leaf list is the same map; the join agrees with the leaves on the id fields, so every
+   intermediate result passes the gate. *)
+Theorem C14_family : forall (id : Type) (id_eqb : id -> id -> bool) (H : tx -> id) (t t' : mtree) (ni no : nat) (x : id),
+  Permutation (leaves t) (leaves t') ->
+  pfam cur_tables uid_cleared_txin_fields (leaves t) ni no ->
+  (forall p, In p (leaves t) -> unique_id H p = Val x) -> id_eqb x x = true ->
+  exists c c', eval_tree id_eqb (unique_id H) t = Val c /\ eval_tree id_eqb (unique_id H) t' = Val c' /\ pset_equiv c c'.
+Proof.
+  intros id id_eqb H t t' ni no x P PF UX XX.
+  assert (tables_ok cur_tables = true) as A1 by (vm_compute; reflexivity).
+  assert (tables_canonical cur_tables = true) as A2 by (vm_compute; reflexivity).
+  assert (tables_no_or cur_tables uid_cleared_txin_fields = true) as A3 by (vm_compute; reflexivity).
+  assert (forall p q, pset_agree uid_cleared_txin_fields p q -> unique_id H p = unique_id H q) as HU.
+  { intros p q A. unfold unique_id, uid_preimage. now rewrite (uid_preimage_depends _ _ _ p q A). }
+  exact (family_merge id_eqb (unique_id H) cur_tables uid_cleared_txin_fields (leaves t) ni no x A1 A2 A3 HU PF UX XX t t' (incl_refl _) P).
+Qed.
+
+(* non-vacuity: three descendants of one ancestor (Proofs/PsetFamily.v: ex_a added a partial signature, ex_b another one, ex_c a key
+   derivation; `ex_pfam` shows they form a family) *)
+(* (a.b).c, a.(b.c) and (c.a).b all succeed and give the same PSET, for every hash and every reflexive id comparison *)
+Example C14_family_three : forall (id : Type) (id_eqb : id -> id -> bool) (H : tx -> id), (forall x, id_eqb x x = true) ->
+  exists r1 r2 r3,
+    eval_tree id_eqb (unique_id H) (MNode (MNode (MLeaf ex_a) (MLeaf ex_b)) (MLeaf ex_c)) = Val r1 /\
+    eval_tree id_eqb (unique_id H) (MNode (MLeaf ex_a) (MNode (MLeaf ex_b) (MLeaf ex_c))) = Val r2 /\
+    eval_tree id_eqb (unique_id H) (MNode (MNode (MLeaf ex_c) (MLeaf ex_a)) (MLeaf ex_b)) = Val r3 /\
+    pset_equiv r1 r2 /\ pset_equiv r1 r3.
+Proof.
+  intros id id_eqb H R.
+  assert (exists t0, forall p, In p [ex_a; ex_b; ex_c] -> uid_preimage p = Val t0) as [t0 U].
+  { eexists. intros p [<-|[<-|[<-|[]]]]; vm_compute; reflexivity. }
+  assert (forall p, In p [ex_a; ex_b; ex_c] -> unique_id H p = Val (H t0)) as UX by (intros p Ip; unfold unique_id; now rewrite (U p Ip)).
+  destruct (C14_family id id_eqb H (MNode (MNode (MLeaf ex_a) (MLeaf ex_b)) (MLeaf ex_c)) (MNode (MLeaf ex_a) (MNode (MLeaf ex_b) (MLeaf ex_c))) 1 1 (H t0))
+    as [r1 [r2 [E1 [E2 Q12]]]]; [apply Permutation_refl|exact ex_pfam|exact UX|apply R|].
+  destruct (C14_family id id_eqb H (MNode (MNode (MLeaf ex_a) (MLeaf ex_b)) (MLeaf ex_c)) (MNode (MNode (MLeaf ex_c) (MLeaf ex_a)) (MLeaf ex_b)) 1 1 (H t0))
+    as [r1' [r3 [E1' [E3 Q13]]]]; [cbn [leaves app]; apply Permutation_sym, (Permutation_cons_append [ex_a; ex_b] ex_c) |exact ex_pfam|exact UX|apply R|].
+  rewrite E1 in E1'. injection E1' as <-. exists r1, r2, r3. auto.
+Qed.
 
 (* ------------------------------------------------------------------ the scalar list *)
 (* Global::scalars is a Vec<Tweak>; its statements (extend / sort / dedup) are read from the source IN ORDER and executed exactly
@@ -169,7 +205,13 @@ Check (C14_commutes : forall (id : Type) (id_eqb : id -> id -> bool) (uid : pset
 Check (C14_scalars : forall a b, vals_nil a -> vals_nil b ->
   let r := vec_merge scalar_ops a b in
   al_sorted r = true /\ (forall k, al_mem k r = al_mem k a || al_mem k b) /\ r = vec_merge scalar_ops b a).
+Check (C14_family : forall (id : Type) (id_eqb : id -> id -> bool) (H : tx -> id) (t t' : mtree) (ni no : nat) (x : id),
+  Permutation (leaves t) (leaves t') ->
+  pfam cur_tables uid_cleared_txin_fields (leaves t) ni no ->
+  (forall p, In p (leaves t) -> unique_id H p = Val x) -> id_eqb x x = true ->
+  exists c c', eval_tree id_eqb (unique_id H) t = Val c /\ eval_tree id_eqb (unique_id H) t' = Val c' /\ pset_equiv c c').
 Print Assumptions C14_gate.
+Print Assumptions C14_family.
 Print Assumptions C14_scalars.
 Print Assumptions C14_commutes.
 Print Assumptions C14_keeps_all.
